@@ -1668,7 +1668,9 @@ THEOREMS = {
             "Iauthd.Proto.xquery_wellFormed", "Iauthd.Proto.global_wellFormed", "Iauthd.Proto.stats_wellFormed",
             "Iauthd.Proto.tagOf_routing", "Iauthd.Addr.ntop_plain"],
     "C10": ["Iauthd.Properties.C10_handler_shrinks_only", "Iauthd.Properties.C10_announce", "Iauthd.Properties.C10_in_use_figure",
-            "Iauthd.Properties.C10_ids_unique"],
+            "Iauthd.Properties.C10_ids_unique",
+            "Iauthd.Properties.C10_history", "Iauthd.Properties.start_inv", "Iauthd.Proto.count_eq", "Iauthd.Proto.Fin1.run",
+            "Iauthd.Proto.runTrace_sim", "Iauthd.Proto.runTrace_runOps"],
     "C11": ["Iauthd.Properties.C11_first_match", "Iauthd.Properties.C11_no_match", "Iauthd.Properties.C11_criteria",
             "Iauthd.Properties.C11_class_len", "Iauthd.Addr.mask_spec"],
     "C17": ["Iauthd.Properties.C17_delivery", "Iauthd.Properties.C17_rules", "Iauthd.Properties.C17_inherit_same_rules",
@@ -1693,9 +1695,10 @@ def lean_targets(prop):
 def lean_modules(prop):
     return ["Iauthd.Proto.Text", "Iauthd.Proto.Model", "Iauthd.Proto.Handlers", "Iauthd.Proto.Step", "Iauthd.Proto.Hist", "Iauthd.Proto.Proofs", "Iauthd.Proto.Table", "Iauthd.Proto.Props", "Iauthd.Proto.Holds", "Iauthd.Proto.Chunk", "Iauthd.Proto.Names"] + (
         ["Iauthd.Proto.Render", "Iauthd.Proto.RenderHex", "Iauthd.Proto.RenderLines", "Iauthd.Proto.RenderInv", "Iauthd.Proto.RenderStep",
-         "Iauthd.Proto.RenderConf", "Iauthd.Addr.ProofsChars"] if prop in ("C09", "C04", "C01") else []) + (
+         "Iauthd.Proto.RenderConf", "Iauthd.Addr.ProofsChars"] if prop in ("C09", "C04", "C01", "C10") else []) + (
         ["Iauthd.Proto.Spec01", "Iauthd.Proto.RenderDec", "Iauthd.Proto.Parse01", "Iauthd.Proto.Trace01", "Iauthd.Proto.Sim01",
-         "Iauthd.Proto.History01", "Iauthd.Properties.C09"] if prop == "C01" else []) + ["Iauthd.Properties." + prop]
+         "Iauthd.Proto.History01", "Iauthd.Properties.C09"] if prop in ("C01", "C10") else []) + (
+        ["Iauthd.Proto.Count10", "Iauthd.Properties.C01"] if prop == "C10" else []) + ["Iauthd.Properties." + prop]
 
 
 def checker_cmd(prop):
